@@ -9,14 +9,18 @@ import (
 	"math"
 	"math/big"
 	"os"
+	"path/filepath"
 	"sort"
 	"sync"
+	"time"
 
 	"github.com/gcash/bchd/chaincfg/chainhash"
 	"github.com/gcash/bchd/wire"
 	"github.com/gcash/bchutil"
 	"github.com/gcash/bchutil/coinset"
 
+	"verif/harness/cmd/c16/srclits"
+	"verif/harness/cmd/c17/prodrun"
 	"verif/harness/internal/vh"
 )
 
@@ -1335,6 +1339,8 @@ func main() {
 		randHistory(r, pl, []int{0, 1, 2, 4}[i%4], !cfg.Search && i%3 == 0)
 	}
 
+	round3Families(rng.Fork("round3"), pl)
+
 	rep.Cases = cases.Len()
 	rep.Extra["duplicate_cases_dropped"] = cases.Dups
 	rep.Extra["sort_note"] = "correspondence compares exact id sequences: for at most 12 elements Go's sort.Sort is a stable insertion sort, which the run driver uses; monitors are tie-independent"
@@ -1360,9 +1366,17 @@ func replay(pl *pool) {
 			Init   []tcoin    `json:"init_value_confs"`
 			Extra  []tcoin    `json:"pushable_value_confs"`
 			Ops    []hop      `json:"ops"`
+			Prod   bool       `json:"prod_build"`
 		} `json:"input"`
 	}
 	vh.Must(json.Unmarshal(raw, &f))
+	if f.Input.Prod && f.Input.Family == "select" { // found by the production-build child: replay there
+		prodRuns = []prodRun{{f.Input.Kind, f.Input.MaxIn, f.Input.MinCh, f.Input.MinAvg, f.Input.Tgt, f.Input.Coins}}
+		runProd()
+		vh.Must(rep.Write(cfg))
+		fmt.Printf("c19 replay (production build): %d monitor violations\n", len(rep.Violations))
+		return
+	}
 	switch f.Input.Family {
 	case "select":
 		desc := make([]tcoin, len(f.Input.Coins))
@@ -1392,4 +1406,214 @@ func replay(pl *pool) {
 	}
 	vh.Must(rep.Write(cfg))
 	fmt.Printf("c19 replay: %d monitor violations\n", len(rep.Violations))
+}
+
+// ---------- round 3: dictionary numbers, list sizes at growth boundaries ----------
+// (a) dictionary: every number that occurs as a literal in the source of package coinset as it is
+//     now (srclits, all non-test files whatever their names or build constraints) and memorable
+//     numbers (digit runs, repdigits, hexspeak, powers of two and ten) as the VALUE of a coin, as
+//     its CONFIRMATIONS (pairs of the two), as the TARGET, as the minimum change - in lists where the
+//     remarkable coin is first, in the middle, last, with targets that need every coin, exactly the
+//     remarkable coin, or more than everything offered (all four selectors);
+// (b) targets from the same pool over lists in which no short prefix satisfies them (the first
+//     coin alone never does);
+// (c) list sizes 0,1,2,3,4,5,7,8,9,...,1023,1024,1025 (the capacities at which append / the
+//     selectors' working copies grow): all four selectors with targets that need every coin, one more
+//     than everything, about half; coin-set histories that push that many coins one by one and then
+//     remove them from both ends, Coins()/Num()/totals compared with the reference after EVERY step
+//     for sizes up to 129 and at every boundary size beyond.
+func round3Families(r *vh.RNG, pl *pool) {
+	t0 := time.Now()
+	dict := srclits.Harvest(true, filepath.Join(srclits.RepoDir(), "coinset"))
+	rep.Extra["dictionary"] = map[string]interface{}{"files": dict.Files, "source_literals": len(dict.Raw)}
+	wide := cfg.Thorough() || cfg.Search
+	var vs []viol
+	run := func(kind int, p param, desc []tcoin, fam string) outcome {
+		o := one(pl, kind, p, desc, false, false, &vs)
+		rep.Count(selName[kind], fmt.Sprint("r3", kind, p, desc), p.MaxIn >= 1 && len(desc) > 0)
+		rep.Histogram[fam]++
+		if nprod++; inDomain(p, desc, false) && (fam != "dictionary_coin" || nprod%8 == 0 || (desc[0].V > 255 && desc[0].C > 255)) {
+			cs := make([][2]int64, len(desc))
+			for i, t := range desc {
+				cs[i] = [2]int64{t.V, t.C}
+			}
+			prodRuns = append(prodRuns, prodRun{kind, p.MaxIn, p.MinChange, p.MinAvg, p.Tgt, cs})
+		}
+		return o
+	}
+	nonneg := func(xs []int64, max int64) []int64 {
+		seen := map[int64]bool{}
+		var out []int64
+		for _, x := range xs {
+			if x >= 0 && x <= max && !seen[x] {
+				seen[x] = true
+				out = append(out, x)
+			}
+		}
+		return out
+	}
+	const capSat = int64(2100000000000000)
+	bigPool := nonneg(dict.Numbers(400), capSat)
+	core := nonneg(append(append([]int64(nil), dict.Raw...), 0, 1, 2, 3, 7, 10, 42, 100, 255, 256, 1000, 1337, 4242, 65535, 65536, 100000000,
+		123456789, 1234567890, 1234567891, 987654321, 0xbeef, 0xdead, 0xcafe, 0xdeadbeef, 0xcafebabe, 0x7fffffff, 0x80000000, 0xffffffff, 0x100000000,
+		1111111, 999999999, 21000000, capSat), capSat)
+	// (a) remarkable coins
+	fill := []tcoin{{5, 1}, {7, 3}}
+	pair := func(k int, v, c int64) {
+		if v > 0 && c > (int64(1)<<57)/v {
+			return
+		}
+		pos := k % 3
+		desc := make([]tcoin, 0, 3)
+		desc = append(desc, fill[:pos%2+pos/2]...)
+		desc = append(desc, tcoin{v, c})
+		desc = append(desc, fill[pos%2+pos/2:]...)
+		sum := v + 12
+		for kind := 0; kind < 4; kind++ {
+			for ti, tgt := range []int64{sum, 2*v + 13, v} {
+				p := param{MaxIn: 10, Tgt: tgt, MinAvg: int64(ti)}
+				run(kind, p, desc, "dictionary_coin")
+			}
+		}
+	}
+	k := 0
+	for _, v := range core {
+		for _, c := range core {
+			k++
+			pair(k, v, c)
+		}
+	}
+	for _, v := range bigPool {
+		for _, c := range core {
+			k++
+			pair(k, v, c)
+			pair(k+1, c, v)
+		}
+	}
+	// (b) remarkable targets / minimum changes
+	for i, T := range bigPool {
+		if T < 8 {
+			continue
+		}
+		q := T / 4
+		descs := [][]tcoin{
+			{{q, 1}, {q, 2}, {q + 1, 3}, {q + 3, 1}, {1, 5}},
+			{{1, 1}, {T - 1, 2}, {1, 3}},
+			{{T / 2, 4}, {T/2 - 1, 1}, {2, 2}, {T, 1}},
+			{{T + 1, 1}, {T - 1, 1}, {1, 1}},
+		}
+		for kind := 0; kind < 4; kind++ {
+			for di, desc := range descs {
+				run(kind, param{MaxIn: 10, Tgt: T, MinAvg: 1}, desc, "dictionary_target")
+				if (i+di)%3 == 0 {
+					run(kind, param{MaxIn: 2 + di%2, Tgt: T, MinChange: 1, MinAvg: 2}, desc, "dictionary_target")
+					run(kind, param{MaxIn: 10, Tgt: q, MinChange: T - q - 1, MinAvg: 1}, desc, "dictionary_minchange")
+				}
+			}
+		}
+	}
+	report(vs)
+	vs = nil
+	rep.Extra["round3_dictionary_seconds"] = time.Since(t0).Seconds()
+	t0 = time.Now()
+	// (c) sizes at growth boundaries
+	var sizes []int
+	for _, n := range []int{0, 1, 2, 3, 4, 5, 6, 7, 8, 9, 12, 13, 15, 16, 17, 31, 32, 33, 63, 64, 65, 127, 128, 129, 255, 256, 257, 511, 512, 513, 1023, 1024, 1025} {
+		if n <= 257 || wide || n == 1025 {
+			sizes = append(sizes, n)
+		}
+	}
+	for _, n := range sizes {
+		for variant := 0; variant < 2; variant++ {
+			desc := make([]tcoin, n)
+			var sum int64
+			for i := range desc {
+				desc[i] = tcoin{int64(3*i + 1), int64(1 + (i*5)%7)}
+				if variant == 1 { // descending values, ties in value-age
+					desc[i] = tcoin{int64(3*(n-i) + 2), int64(1 + i%2)}
+				}
+				sum += desc[i].V
+			}
+			for kind := 0; kind < 4; kind++ {
+				run(kind, param{MaxIn: n + 1, Tgt: sum, MinAvg: 1}, desc, "growth_size_select")
+				run(kind, param{MaxIn: n + 1, Tgt: sum + 1, MinAvg: 1}, desc, "growth_size_select")
+				run(kind, param{MaxIn: n, Tgt: sum / 2, MinChange: 1, MinAvg: 2}, desc, "growth_size_select")
+				if n > 0 {
+					run(kind, param{MaxIn: n - 1, Tgt: sum, MinAvg: 0}, desc, "growth_size_select")
+				}
+			}
+		}
+		// push n coins one by one, then take them away from both ends
+		boundary := map[int]bool{}
+		for _, b := range sizes {
+			boundary[b] = true
+		}
+		extra := make([]tcoin, n)
+		for i := range extra {
+			extra[i] = tcoin{int64(2*i + 1), int64(i % 5)}
+		}
+		var ops []hop
+		for i := 0; i < n; i++ {
+			ops = append(ops, hop{"push", i})
+			if n <= 129 || boundary[i+1] {
+				ops = append(ops, hop{Op: "coins"})
+			}
+		}
+		for left := n; left > 0; left-- {
+			if left%2 == 0 {
+				ops = append(ops, hop{Op: "shift"})
+			} else {
+				ops = append(ops, hop{Op: "pop"})
+			}
+			if n <= 129 || boundary[left-1] {
+				ops = append(ops, hop{Op: "coins"})
+			}
+		}
+		ops = append(ops, hop{Op: "pop"}, hop{Op: "shift"})
+		if n > 0 {
+			ops = append(ops, hop{"push", 0}, hop{Op: "coins"})
+		}
+		history(pl, nil, extra, ops, false)
+		rep.Histogram["growth_size_history"]++
+		// the same with the coins given to NewCoinSet at once
+		history(pl, extra, nil, []hop{{Op: "coins"}, {Op: "shift"}, {Op: "pop"}, {Op: "coins"}, {Op: "tx"}}, false)
+	}
+	report(vs)
+	rep.Extra["round3_growth_seconds"] = time.Since(t0).Seconds()
+	runProd()
+}
+
+// ---------- the build that ships ----------
+// The selector runs of the families above (inside the property's domain; a sample of the large
+// coin cross product) are also given to harness/cmd/c19/prod, a child built at run time WITHOUT
+// -tags verif in a scratch module (harness/cmd/c17/prodrun): this harness is built with the tag, so
+// files selected by `//go:build !verif` are invisible to it.
+type prodRun struct {
+	Kind      int        `json:"kind"`
+	MaxIn     int        `json:"max_inputs"`
+	MinChange int64      `json:"min_change"`
+	MinAvg    int64      `json:"min_avg_value_age"`
+	Tgt       int64      `json:"target"`
+	Coins     [][2]int64 `json:"coins_value_confs"`
+}
+
+var prodRuns []prodRun
+var nprod int
+
+func runProd() {
+	stdin, _ := json.Marshal(prodRuns)
+	o, err := prodrun.Run(cfg.Out, "c19", "cmd/c19/prod", stdin)
+	if err != nil {
+		rep.Extra["production_build"] = "NOT RUN: " + err.Error()
+		rep.Histogram["production_build/not_run"]++
+		return
+	}
+	rep.Extra["production_build"] = map[string]interface{}{"main_module": o.MainPath, "build_tags": o.Tags, "executions": o.Executions, "build_seconds": o.BuildSecs, "run_seconds": o.RunSecs}
+	rep.Evaluations += o.Executions
+	for k, v := range o.Histogram {
+		rep.Histogram["production_build/"+k] += v
+	}
+	for _, v := range o.Violations {
+		rep.Violate(v.Key, v.What+" [build without -tags verif]", v.Replay)
+	}
 }
